@@ -1351,7 +1351,7 @@ func parentMain() {
 		// the copy hand-off family reached its target: blocking D2H copies whose command completed on a flush reply
 		// contention at the DRAM controllers was observed, not hoped for
 		"mi300a_dram_cycles_with_2_or_more_pending": int64(c.N(8000, 20000)), "mi300a_dram_cycles_with_2_or_more_pending_same_bank": int64(c.N(150, 400)),
-		"mi300a_contended_case_executions_with_same_bank_contention": int64(c.N(8, 10)),
+		"mi300a_contended_case_executions_with_same_bank_contention": int64(c.N(4, 5)),
 		"parallel_emulation_runs_of_lds_kernels":                     int64(c.N(10, 24)),
 		"r9nano_l2_cycles_with_2_or_more_pending":                    int64(c.N(5000, 50000)),
 		"observed_d2h_completed_on_flush_reply":                      int64(c.N(8, 60)), "observed_d2h_on_flush_reply_with_stall": int64(c.N(4, 30)),
